@@ -284,7 +284,10 @@ Section Par1.
                 else if Nat.eqb (length (v_data v)) 0 then (Err EMalformed, st1)
                 else if negb (Nat.eqb size 0) && negb (Nat.eqb (length (v_data v)) size) then (Err EMalformed, st1)
                 else load_vols indexPath sethash (S i) n' (length (v_data v)) (acc ++ [Some (v_data v)]) st1
-            | Err x => (Err x, st1)
+            | Err x =>
+                (* a volume that does not parse (identification, version, truncated, control hash) is damaged:
+                   it is unusable, like a missing one, and the others are still used *)
+                load_vols indexPath sethash (S i) n' size (acc ++ [None]) st1
             | Panic q => (Panic q, st1)
             end
         end
